@@ -65,7 +65,8 @@ def header(scn):
                       if by[i]['kind'] in ('page', 'redirect', 'css', 'sitemap', 'robotsfile') else 'other'
                       for i in range(1, n + 1)],
                 rto=[by[i].get('rto', 0) for i in range(1, n + 1)],
-                rejected=[1 if (by[i]['rejected'] or (scn['opts'].get('noparent') and by[i].get('outside'))) else 0 for i in range(1, n + 1)],
+                rejected=[1 if by[i]['rejected'] else 0 for i in range(1, n + 1)],
+                outside=[1 if by[i].get('outside') else 0 for i in range(1, n + 1)],
                 disallowed=[by[i]['disallowed'] for i in range(1, n + 1)],
                 nofollow=[by[i]['nofollow'] for i in range(1, n + 1)],
                 robotskind=rk, opts=dict(scn['opts'], N=scn['N']), benign=scn['benign'], name=scn['name'])
@@ -222,6 +223,15 @@ def c01_catalogue(quick):
               U(4, path='/other/p4', outside=1), U(5, path='/docs-old/p5', outside=1)]
     np_sub[0]['links'].append(dict(to=5))
     out.append(scenario('noparent-subdir-start', np_sub, dict(noparent=1), N=1))
+    # --no-parent with page requisites: a requisite may lie outside the directory; the links found IN it are judged by
+    # their own URL (a frame outside the directory that links back into it), and a URL outside that is both linked and
+    # embedded is fetched as the requisite it is
+    fr = [U(1, path='/dir/index.html', links=[dict(to=2, inline=1, frame=1), 5]), U(2, path='/frames/menu.html', outside=1, links=[3, 4]),
+          U(3, path='/dir/page2.html'), U(4, path='/elsewhere/p4', outside=1), U(5, path='/dir/p5')]
+    out.append(scenario('noparent-frame-outside-links-back', fr, dict(noparent=1, pagereq=1), N=1))
+    th = [U(1, path='/dir/index.html', links=[2] + [dict(to=i, inline=1) for i in range(2, 9)] + list(range(3, 9)))] + \
+         [U(i, path='/img/p%d.png' % i, outside=1) for i in range(2, 9)]
+    out.append(scenario('noparent-thumbnails-linked-and-embedded', th, dict(noparent=1, pagereq=1), N=1))
     # <base href> belongs to the document that declares it: a later document without one resolves against its own URL
     # (the document with the <base> links to the plain one, so it is necessarily scraped first)
     bs = [U(1, links=[2]), U(2, path='/d1/p2', base='http://a.test/other/', links=[dict(to=4, spelling='x.html'), 3, 7]),
